@@ -80,6 +80,7 @@ class Walker(object):
         self.with_times = with_times
         self.ids = ids          # set collecting every id seen in id positions
         self.defined = set()    # ids of entities met in their owning container
+        self.stamps = {}        # id -> [created_at, updated_at] (with_times only)
         self.dup_ids = []       # ids met twice in owning positions
         self.bad_ids = []       # ids that are not well-formed UUIDs
         self.linked = []        # (owner block id or None, role, target id) of every link met
@@ -90,7 +91,11 @@ class Walker(object):
     def times(self, e):
         if not self.with_times:
             return []
-        return [safe(lambda: int(e.created_at)), safe(lambda: int(e.updated_at))]
+        t = [safe(lambda: int(e.created_at)), safe(lambda: int(e.updated_at))]
+        i = safe(lambda: e.id, None)
+        if isinstance(i, str):
+            self.stamps[i] = t
+        return t
 
     def idtok(self, e):
         i = safe(lambda: e.id, None)
@@ -230,7 +235,7 @@ def walk_info(f, with_times, ids):
                        if b is not None and role in ("list", "featdata") and isinstance(t, str) and t in w.defined
                        and t not in w.block_defs.get(b, set()) and not _is_section(w, t)))
     return toks, {"dangling": dangling, "cross_block": cross, "defined": len(w.defined), "_defined_set": w.defined,
-                  "dup_ids": w.dup_ids, "bad_ids": w.bad_ids}
+                  "dup_ids": w.dup_ids, "bad_ids": w.bad_ids, "stamps": w.stamps}
 
 
 def _is_section(w, t):
